@@ -23,8 +23,8 @@ VERIF_DIR = proc.VERIF_DIR
 FORMAT = 1
 DEFAULT_SEED = 20261004
 
-QUICK_RUNS = {"C09": 1400, "C10": 1000, "C08": 6000}
-MIN_RUNS = {"C09": 600, "C10": 250, "C08": 800}
+QUICK_RUNS = {"C09": 1800, "C10": 1100, "C08": 6000}
+MIN_RUNS = {"C09": 600, "C10": 300, "C08": 800}
 GEN_SIZE = 512
 MINIMISE_WALL_S = 240
 TITLES = {"C08": "identity caches and pickling across 1-2 interpreters",
